@@ -22,6 +22,8 @@ var kernels2 = []k2spec{
 	{pkg: ".", recv: "", fn: "convertBits", name: "convertBits"},
 	{pkg: ".", recv: "", fn: "packAddressData", name: "packAddressData"},
 	{pkg: ".", recv: "", fn: "DecodeCashAddress", name: "DecodeCashAddress"},
+	{pkg: ".", recv: "", fn: "encode", name: "encode"},
+	{pkg: ".", recv: "", fn: "checkEncodeCashAddress", name: "checkEncodeCashAddress"},
 	{pkg: "bech32", recv: "", fn: "bech32Polymod", name: "bech32Polymod"},
 	{pkg: "bech32", recv: "", fn: "bech32HrpExpand", name: "bech32HrpExpand"},
 	{pkg: "bech32", recv: "", fn: "bech32Checksum", name: "bech32Checksum"},
